@@ -14,6 +14,11 @@ CLAIMS = {
   'design_ref': 'DESIGN.md section 4 / C01',
   'note': 'Trusted: extern contracts of struct.Struct pack/unpack (little-endian standard sizes), str.encode/bytes.decode as an inverse pair on valid text, zlib.compress/decompress as an inverse pair, socket.inet_aton/ntoa on canonical dotted quads; Python ints are mathematical (exact). The pinned layout table contracts/c01_layout.json is the oracle. One open known finding (PrivateChatMessage.Response is_direct=None).',
  },
+ 'C02': {
+  'text': 'Proof. Every primitive, record, array (loop contract: each iteration raises or consumes >= 1 unread byte, so at most len(data) iterations whatever count is announced) and message decoder, and the five family dispatchers, are executed symbolically on ARBITRARY byte strings: every path returns or raises an Exception subclass from the declared raises-set. On top of these contracts: decode_message_data lets only MessageDeserializationError escape (for every Exception subclass the parser may raise), _read_message consumes exactly header + announced length from the ghost stream (plain and obfuscated), _read raises only ConnectionReadError after disconnecting, an arbitrary iteration of the reader loop lets nothing escape, delivers once iff a message arrived on an open connection, and ends only when the connection is closing; a bad first frame closes only the accepted connection; and no code run by the reader activation (every @on_message handler and what it awaits on self) awaits a task/future outside a CancelledError shield.',
+  'design_ref': 'DESIGN.md section 4 / C02',
+  'note': 'Trusted: extern contracts of struct, bytes.decode, zlib.decompress, socket.inet_ntoa, StreamReader.readexactly, async_timeout, asyncio task cancellation semantics; single-threaded cooperative scheduling; the handler obligation is a syntactic exit-path rule over the awaited expressions (stated in contracts/C02.py). Not decided: memory exhaustion by a huge well-formed length prefix.',
+ },
 }
 
 NA_DEFAULT = 'check not built yet (work in progress; see DESIGN.md section 4 for the planned contracts)'
